@@ -16,7 +16,7 @@ RULE = ("Histories of 3-40 add_resource / add_window(named) / add_window(anonymo
         "distinct. Non-trivial = a refused and an accepted name sharing their first part, and an "
         "anonymous window absorbing >= 2 names. Distinct = canonical JSON.")
 BUDGET = {"quick": (16, 1500), "thorough": (16, 40000)}
-ESSENTIAL = ["refused_conflict", "accepted_shared_first_part", "anon_absorbs>=2", "anon_conflict_refused",
+ESSENTIAL = ["refused_for_non_name_reason", "refused_conflict", "accepted_shared_first_part", "anon_absorbs>=2", "anon_conflict_refused",
              "anon_conflict_not_last", "str_vs_int", "invalid_name_refused", "prefix_longer_new", "prefix_shorter_new", "depth3"]
 ASSUMPTIONS = [
     "refusals for reasons other than names are excluded by construction (ample address space, implicit addresses) or tracked by the model (frozen parent, window already added)",
@@ -50,6 +50,9 @@ def _spec(draw, tier):
         (2, st.tuples(st.just("win"), mi, mi, _name()).map(list)),
         (4, st.tuples(st.just("win"), mi, mi, st.none()).map(list)),
         (1, st.tuples(st.just("bad"), mi, _bad_name()).map(list)),
+        # refused for a reason other than the name (address out of bounds): must reserve nothing
+        (1, st.tuples(st.just("res_oob"), mi, _name()).map(list)),
+        (1, st.tuples(st.just("win_oob"), mi, mi, st.one_of(st.none(), _name())).map(list)),
     )
     lo = draw(st.integers(3, 30))
     return {"nmaps": nmaps, "ops": draw(st.lists(op, min_size=lo, max_size=lo + 10))}
@@ -103,6 +106,24 @@ def check(spec, stats):
                 stats.label("invalid_name_refused")
             else:
                 raise Violation("C18/invalid-name-accepted", f"{where}: name {BAD[op[2]]!r} accepted")
+            continue
+        if op[0] in ("res_oob", "win_oob"):
+            oob = 1 << m.addr_width
+            try:
+                if op[0] == "res_oob":
+                    m.add_resource(Res(), name=tuple(op[2]), size=1, addr=oob)
+                else:
+                    if op[2] <= i:
+                        continue
+                    if op[3] is None:
+                        m.add_window(maps[op[2]], addr=oob)
+                    else:
+                        m.add_window(maps[op[2]], name=tuple(op[3]), addr=oob)
+            except Exception as e:
+                refused_ok(e)
+                stats.label("refused_for_non_name_reason")
+            else:
+                raise Violation("C18/out-of-bounds-accepted", f"{where}: accepted at address {oob:#x}")
             continue
         if op[0] == "res":
             name = tuple(op[2])
